@@ -36,6 +36,7 @@ pub fn card_bit(deck_index: usize) -> u64 {
 }
 
 /// Deck index of a single card bit (bit 51 is index 0).
+#[allow(dead_code)]
 #[inline]
 pub fn index_of_bit(bit_pos: u32) -> usize {
     (51 - bit_pos) as usize
@@ -77,6 +78,9 @@ pub fn card_name(deck_index: usize) -> String {
 
 /// Tokens that are not a spelling of any card.
 pub const JUNK: [&str; 10] = ["XX", "__", "--", "??", "A", "s", "1S", "AX", "ZZZ", "♠A"];
+
+/// Tails appended to a card spelling; by C12 the token is still that card.
+pub const TAILS: [&str; 6] = ["", "x", "♠", "0", "ss", "!"];
 
 pub const SEPARATORS: [&str; 6] = [" ", "  ", "\t", "\n", " \t ", "\r\n"];
 
